@@ -43,6 +43,10 @@ pub enum Reply {
     Func(u8),
     /// OR these bits into the IIN octets of this response only
     Iin(u8, u8),
+    /// as `Iin`, and the response also asks for a confirmation
+    IinCon(u8, u8),
+    /// the inner reply with the CON bit set on every solicited response it transmits (two deviations at once)
+    ConPlus(Box<Reply>),
     /// cut the response to n octets
     Truncate(usize),
     /// replace the objects by these octets
@@ -381,6 +385,8 @@ pub struct PeerShared {
     /// cancellation fault: the next fragment transmitted arrives in two pieces (cut after this many octets of its link
     /// frame), 2 ms apart, and a channel message reaches the master in between
     pub split_next: Option<usize>,
+    /// set the CON bit on solicited responses transmitted while this is on (`Reply::ConPlus`)
+    pub force_con: bool,
     pub poke_at: Option<u64>,
     pub poke_notify: Arc<tokio::sync::Notify>,
 }
@@ -428,6 +434,14 @@ impl PeerShared {
         let (t, order) = order_now();
         let dest = self.master_addr;
         let session = self.session;
+        let mut with_con;
+        let bytes: &[u8] = if self.force_con && bytes.len() >= 2 && bytes[1] == refapp::FUNC_RESPONSE {
+            with_con = bytes.to_vec();
+            with_con[0] |= 0x20;
+            &with_con
+        } else {
+            bytes
+        };
         if let Some((to_client, _)) = self.conn.clone() {
             let wire = self.link.encode_fragment(src, dest, bytes);
             let lat = to_client.lock().unwrap().latency_ms;
@@ -981,6 +995,12 @@ fn on_fragment(p: &mut PeerShared, src: u16, dest: u16, bytes: &[u8], worder: u6
         o.series_answers = answers;
         o.series_index = 0;
     };
+    let (reply, force_con) = match reply {
+        Reply::ConPlus(inner) => (*inner, true),
+        r => (r, false),
+    };
+    p.force_con = force_con;
+    let iin_with_con = matches!(reply, Reply::IinCon(..));
     match reply {
         Reply::Faithful => send_faithful(p, 0, "faithful"),
         Reply::Silent => {}
@@ -1054,11 +1074,14 @@ fn on_fragment(p: &mut PeerShared, src: u16, dest: u16, bytes: &[u8], worder: u6
                 p.transmit(addr, &f, "function", valid, answers, 0);
             }
         }
-        Reply::Iin(a, b) => {
+        Reply::Iin(a, b) | Reply::IinCon(a, b) => {
             if let Some(f) = fragments.first() {
                 let mut f = f.clone();
                 f[2] |= a;
                 f[3] |= b;
+                if iin_with_con {
+                    f[0] |= 0x20;
+                }
                 // IIN2 bits 0..2 reject the request
                 let valid = f[3] & 0x07 == 0;
                 p.transmit(addr, &f, "iin", valid, answers, 0);
@@ -1169,7 +1192,9 @@ fn on_fragment(p: &mut PeerShared, src: u16, dest: u16, bytes: &[u8], worder: u6
             send_faithful(p, 0, "faithful");
             p.cut_requested = Some(CloseKind::Eof);
         }
+        Reply::ConPlus(_) => {}
     }
+    p.force_con = false;
 }
 
 /// body of a g70v7 file descriptor
@@ -1702,6 +1727,7 @@ pub async fn drive(sim: &Sim, case: &SmastCase) -> MastRun {
         last_delivery_ms: 0,
         last_deviation_ms: 0,
         split_next: None,
+        force_con: false,
         poke_at: None,
         poke_notify: Arc::new(tokio::sync::Notify::new()),
     }));
